@@ -40,7 +40,7 @@ def plan(tier, seed):
         specs.append(spec("main_" + main, "ascii", main, stored=stored, user_miss=["unk"] + rot(["u1.pre", "u1.case", "u1.max", "x.empty", "u1.ext"], seed, 1),
                           pass_miss=["ext", "rep"] + rot(["nul", "max", "hashof", "cas", "pre"], seed, 1),
                           shapes=SHAPES, man_none=["own"], man_victim=["victim+will"],
-                          prephases=rot(PREPHASES, seed, 2), prevers=rot(PREVERS, seed, 1), workers=16))
+                          prephases=sorted(set(rot(PREPHASES, seed, 2) + ["burst"])), prevers=rot(PREVERS, seed, 1), workers=16))
         # the other algorithms: both users, 2 storable passwords, fewer classes, other concretisations
         packs = rot(["nested", "unicode", "yaml", "ascii"], seed, 3)
         for i, a in enumerate(others):
